@@ -332,6 +332,8 @@ def _chunks_handed_on(meth):
         f = _hv(T, meth)
         c = one([n for n in ast.walk(f) if isinstance(n, ast.Call) and ast.unparse(n.func) == 'self.add_ds'], 'add_ds call')
         add_params = [p.arg for p in _hv(T, 'add_ds').args.args]
+        if any(k.arg is None for k in c.keywords) or any(isinstance(a, ast.Starred) for a in c.args):
+            raise Untranslatable('add_ds called with splatted arguments: what is handed on is not visible here')
         v = _kwarg(c, 'chunks', add_params.index('chunks') - 1)
         if any(isinstance(n, (ast.Assign, ast.AugAssign)) and 'chunks' in ast.unparse(getattr(n, 'targets', [getattr(n, 'target', None)])[0])
                for n in ast.walk(f)):
